@@ -42,6 +42,18 @@ fn enforced(opcode: u8) -> Option<(Vec<usize>, Vec<usize>)> {
         // control flow: split loop (left shift), span join respan (no shift), repeat (left shift)
         84 | 85 | 116 => (all, vec![]),
         86 | 87 | 120 => (all, vec![]),
+        // operations whose values travel over a bus or come from the host: the cells they leave alone
+        // mload: no change from 1; caller / advpopw / mrupdate: no change from 4
+        7 => ((1..16).map(|i| S + i).chain([B0]).collect(), vec![]),
+        9 | 14 | 96 => ((4..16).map(|i| S + i).chain([B0]).collect(), vec![]),
+        // mloadw: left shift from 5; mstore / mstorew: left shift from 1
+        44 => ((4..16).map(|i| S + i).chain([B0]).collect(), vec![]),
+        45 | 46 => (all, vec![]),
+        // hperm: no change from 12; mpverify: no change at all
+        80 => ((12..16).map(|i| S + i).chain([B0]).collect(), vec![]),
+        81 => (all, vec![]),
+        // pipe / mstream: no change from 8 except the pointer in position 12, which grows by 2
+        82 | 83 => ((8..16).map(|i| S + i).chain([B0]).collect(), vec![]),
         _ => return None,
     })
 }
@@ -128,6 +140,18 @@ pub fn generate(em: &mut Emitter, seed: u64, thorough: bool) {
             if let Ok(p) = assemble(None, &src, false) {
                 progs.push((src, p, st, vec![]));
             }
+        }
+    }
+    // memory, advice, hasher and kernel operations (their stack effect is partly a bus matter)
+    for (src, k, st, adv) in [
+        ("begin push.7 mem_store.3 mem_load.3 push.1.2.3.4 mem_storew.9 dropw padw mem_loadw.9 dropw mem_load end", None, vec![3u64, 5, 6, 7, 8, 9, 10, 11, 12, 13, 14, 15, 16, 17, 18, 19, 20], vec![]),
+        ("begin push.100 movdn.12 mem_stream push.200 movdn.12 adv_pipe hperm adv_loadw adv_push.2 end", None, (1..=18u64).collect(), (1..=16u64).collect()),
+        ("begin hperm hmerge hash end", None, (1..=20u64).collect(), vec![]),
+        ("proc.f syscall.k end begin call.f end", Some("export.k caller add add add end\n"), (1..=16u64).collect(), vec![]),
+    ] {
+        match assemble(k, src, false) {
+            Ok(p) => progs.push((src.to_string(), p, st, adv)),
+            Err(e) => em.oracle_failures.push(format!("C04 monitor program does not assemble: {} :: {}", src, e)),
         }
     }
     for i in 0..(if thorough { 300 } else { 30 }) {
